@@ -643,6 +643,209 @@ theorem C14_mail_after_auth_accepted (i : Name) (hi : i ≠ []) :
     (connStep true (connAfter true [.ehlo, .auth (.ok i)]) .mail).2 = 250 := by
   simp [connAfter, connStep, hi]
 
+/-! ## `auth_map_normalize`: a user name stands for the account management addresses by that name
+
+`authz.NormalizeFuncs` is mirrored by `normalizeFunc` over the library primitives `P : NormPrims`; the credentials
+table is keyed by `P.ucm` (`Cfg.ofConfig`).  With `auto` (the default of every endpoint) on a name that is not an
+e-mail address, and with `precis_casefold`, the function applied to the supplied user name IS the key function of
+the table — so, `ucm` being idempotent at that name, the login is decided by the row that `create u` /
+`set-password u` / `delete u` address.  Two names with different keys (`straße` / `strasse`, `οδος` / `οδοσ`:
+RFC 8265 lower-cases, it does not case-fold) are different accounts for login exactly as for management. -/
+
+theorem C14_auto_name_is_management_account (P : NormPrims) (m : Option (Name → Option Name)) (l : Bool) (u : Name)
+    (hm : m = none) (hv : P.validEmail u = false) (hid : ∀ k, P.ucm u = some k → P.ucm k = some k) :
+    resolve (Cfg.ofConfig P (some .auto) m l) u = P.ucm u := by
+  subst hm
+  simp only [resolve, usernameForAuth, Cfg.ofConfig, normalizeFunc, normalizeAuto, hv, Option.map_some]
+  cases h : P.ucm u with
+  | none => simp
+  | some k => simp [hid k h]
+
+theorem C14_casefold_name_is_management_account (P : NormPrims) (l : Bool) (u : Name)
+    (hid : ∀ k, P.ucm u = some k → P.ucm k = some k) :
+    resolve (Cfg.ofConfig P (some .precisCasefold) none l) u = P.ucm u := by
+  simp only [resolve, usernameForAuth, Cfg.ofConfig, normalizeFunc, Option.map_some]
+  cases h : P.ucm u with
+  | none => simp
+  | some k => simp [hid k h]
+
+/-- **C14 (default normalisation).** `auth_map_normalize auto`, no map, LOGIN enabled, a user name that is not an
+e-mail address: after ANY history, LOGIN (hence PLAIN, `C14_plain_login_agree`) with `(u, p)` succeeds exactly when
+`p` is the password most recently set for the account `P.ucm u` — the account the management operations naming `u`
+address. -/
+theorem C14_auto_login_iff_management_password (P : NormPrims) (h : List Op) (u i : Name) (p : Pw)
+    (hv : P.validEmail u = false) (hid : ∀ k, P.ucm u = some k → P.ucm k = some k) :
+    login (Cfg.ofConfig P (some .auto) none true) (tableAfter (Cfg.ofConfig P (some .auto) none true) h) u p = .ok i ↔
+      i = u ∧ ∃ k s q, P.ucm u = some k ∧
+        current (Cfg.ofConfig P (some .auto) none true) h.reverse k = some (s, q) ∧ pwEq s p q = true := by
+  rw [C14_login_ok_iff, C14_auto_name_is_management_account P none true u rfl hv hid]
+  simp [Cfg.ofConfig]
+
+/-- Names with different keys are different accounts: whatever is done to the account of `u'` after the last
+operation naming the account of `u` does not change the verdict of a login as `u` (default normalisation). -/
+theorem C14_auto_distinct_keys_distinct_accounts (P : NormPrims) (h h' : List Op) (u k : Name) (p : Pw)
+    (hv : P.validEmail u = false) (hk : P.ucm u = some k) (hid : P.ucm k = some k)
+    (hf : ∀ op ∈ h', touches (Cfg.ofConfig P (some .auto) none true) k op = false) :
+    login (Cfg.ofConfig P (some .auto) none true) (tableAfter (Cfg.ofConfig P (some .auto) none true) (h ++ h')) u p =
+    login (Cfg.ofConfig P (some .auto) none true) (tableAfter (Cfg.ofConfig P (some .auto) none true) h) u p := by
+  have hfr := C14_frame (Cfg.ofConfig P (some .auto) none true) k h h' hf
+  simp only [login, saslAuthPlain, usernameForAuth, tableAuthPlain, Cfg.ofConfig, normalizeFunc, normalizeAuto, hv,
+    Option.map_some] at hfr ⊢
+  simp [hk, hid, hfr]
+
+/-! ## overlapping logins (schedules of `fetch` / `finish` events interleaved with management)
+
+A login's verdict is the sequential verdict on the table as it was when the login read its row — a point inside
+the login's interval — whatever other logins (for the same or other accounts, with whatever passwords) are in
+flight and however the events interleave. -/
+
+theorem stateAfterEv_snoc (c : Cfg) (s : ConcState) (evs : List Ev) (e : Ev) :
+    stateAfterEv c s (evs ++ [e]) = (evStep c (stateAfterEv c s evs) e).1 := by
+  simp [stateAfterEv, List.foldl_append]
+
+theorem stateAfterEv_append (c : Cfg) (s : ConcState) (a b : List Ev) :
+    stateAfterEv c s (a ++ b) = stateAfterEv c (stateAfterEv c s a) b := by
+  simp [stateAfterEv, List.foldl_append]
+
+theorem mgmtOf_append (a b : List Ev) : mgmtOf (a ++ b) = mgmtOf a ++ mgmtOf b := by
+  induction a with
+  | nil => simp [mgmtOf]
+  | cons e r ih => cases e <;> simp [mgmtOf, ih]
+
+/-- The table after a schedule is the table after its atomic operations: logins in flight never write it. -/
+theorem C14_overlap_table (c : Cfg) (evs : List Ev) (t : Tbl) (pend : List (Nat × Out)) :
+    (stateAfterEv c ⟨t, pend⟩ evs).tbl = (mgmtOf evs).foldl (fun t op => (step c t op).1) t := by
+  induction evs generalizing t pend with
+  | nil => simp [stateAfterEv, mgmtOf]
+  | cons e r ih =>
+    have hcons : stateAfterEv c ⟨t, pend⟩ (e :: r) = stateAfterEv c (evStep c ⟨t, pend⟩ e).1 r := by
+      simp [stateAfterEv]
+    rw [hcons]
+    cases e with
+    | op o => simpa [evStep, mgmtOf] using ih (step c t o).1 pend
+    | fetch i o => simpa [evStep, mgmtOf] using ih t ((i, (step c t o).2) :: pend)
+    | finish i =>
+      cases hg : pendGet i pend with
+      | some r' => simpa [evStep, mgmtOf, hg] using ih t (pendDrop i pend)
+      | none => simpa [evStep, mgmtOf, hg] using ih t pend
+    | yield => simpa [evStep, mgmtOf] using ih t pend
+
+/-- an event of login `i` -/
+def ofLogin (i : Nat) : Ev → Bool
+  | .fetch j _ => j == i
+  | .finish j => j == i
+  | _ => false
+
+theorem pendGet_drop_ne (i j : Nat) (l : List (Nat × Out)) (h : j ≠ i) :
+    pendGet i (pendDrop j l) = pendGet i l := by
+  induction l with
+  | nil => simp [pendDrop, pendGet]
+  | cons e r ih =>
+    obtain ⟨k, v⟩ := e
+    by_cases hk : k = j
+    · subst hk
+      simp [pendDrop, pendGet, h, ih]
+    · by_cases hki : k = i
+      · subst hki
+        have hkj : ¬ j = k := fun e => hk e.symm
+        simp [pendDrop, hk, pendGet]
+      · simp [pendDrop, hk, pendGet, hki, ih]
+
+/-- events of other logins and management leave login `i`'s pending verdict alone. -/
+theorem pending_kept (c : Cfg) (i : Nat) (r : Out) (mid : List Ev) (s : ConcState)
+    (hp : pendGet i s.pending = some r) (hm : ∀ e ∈ mid, ofLogin i e = false) :
+    pendGet i (stateAfterEv c s mid).pending = some r := by
+  induction mid generalizing s with
+  | nil => simpa [stateAfterEv] using hp
+  | cons e rest ih =>
+    have hcons : stateAfterEv c s (e :: rest) = stateAfterEv c (evStep c s e).1 rest := by simp [stateAfterEv]
+    rw [hcons]
+    apply ih
+    · have he := hm e (by simp)
+      cases e with
+      | op o => simpa [evStep] using hp
+      | fetch j o =>
+        have hj : j ≠ i := by simpa [ofLogin] using he
+        simp [evStep, pendGet, hj, hp]
+      | finish j =>
+        have hj : j ≠ i := by simpa [ofLogin] using he
+        cases hg : pendGet j s.pending with
+        | some r' => simp [evStep, hg, pendGet_drop_ne i j _ hj, hp]
+        | none => simpa [evStep, hg] using hp
+      | yield => simpa [evStep] using hp
+    · intro e' he'; exact hm e' (by simp [he'])
+
+theorem runEv_append_single (c : Cfg) (s : ConcState) (evs : List Ev) (e : Ev) :
+    runEv c s (evs ++ [e]) = runEv c s evs ++ [(evStep c (stateAfterEv c s evs) e).2] := by
+  induction evs generalizing s with
+  | nil => simp [runEv, stateAfterEv]
+  | cons x r ih => simp [runEv, stateAfterEv, ih]
+
+/-- **C14 (overlapping logins).** In ANY schedule — any number of other logins in flight, for the same or other
+accounts, management operations before, between and after — the verdict reported when login `i` finishes is the
+sequential outcome of its request `o` on the table produced by the management operations that precede the point
+where it read its row: it depends only on the login's own credentials and on a table state inside its interval. -/
+theorem C14_overlap_verdict_at_fetch (c : Cfg) (pre mid : List Ev) (i : Nat) (o : Op)
+    (hm : ∀ e ∈ mid, ofLogin i e = false) :
+    (runEv c ⟨Tbl.empty, []⟩ (pre ++ .fetch i o :: mid ++ [.finish i])).getLast? =
+      some (.out (step c (tableAfter c (mgmtOf pre)) o).2) := by
+  have e1 : pre ++ .fetch i o :: mid ++ [.finish i] = (pre ++ .fetch i o :: mid) ++ [.finish i] := by simp
+  rw [e1, runEv_append_single]
+  simp only [List.getLast?_append, List.getLast?_singleton, Option.some_or]
+  have e2 : pre ++ .fetch i o :: mid = (pre ++ [.fetch i o]) ++ mid := by simp
+  have hp : pendGet i (stateAfterEv c ⟨Tbl.empty, []⟩ (pre ++ .fetch i o :: mid)).pending =
+      some (step c (tableAfter c (mgmtOf pre)) o).2 := by
+    rw [e2, stateAfterEv_append]
+    apply pending_kept c i _ mid _ _ hm
+    rw [stateAfterEv_snoc]
+    have ht := C14_overlap_table c pre Tbl.empty []
+    simp only [evStep, pendGet, if_true]
+    rw [ht]; rfl
+  simp [evStep, hp]
+
+/-- The verdict does not depend on the other logins of the schedule at all: two schedules whose management
+operations before the login's read agree give the login the same verdict. -/
+theorem C14_overlap_independent_of_other_logins (c : Cfg) (pre pre' mid mid' : List Ev) (i : Nat) (o : Op)
+    (hm : ∀ e ∈ mid, ofLogin i e = false) (hm' : ∀ e ∈ mid', ofLogin i e = false) (hpre : mgmtOf pre = mgmtOf pre') :
+    (runEv c ⟨Tbl.empty, []⟩ (pre ++ .fetch i o :: mid ++ [.finish i])).getLast? =
+    (runEv c ⟨Tbl.empty, []⟩ (pre' ++ .fetch i o :: mid' ++ [.finish i])).getLast? := by
+  rw [C14_overlap_verdict_at_fetch c pre mid i o hm, C14_overlap_verdict_at_fetch c pre' mid' i o hm', hpre]
+
+/-- **C14 (overlapping logins, the property).** An overlapping LOGIN succeeds exactly when the supplied password
+is the one most recently set — by the management operations preceding the login's read of its row, a point inside
+its interval — for the account the user name resolves to.  (PLAIN: the same with `C14_plain_ok_iff`.) -/
+theorem C14_overlap_login_iff_current_password (c : Cfg) (pre mid : List Ev) (i : Nat) (u j : Name) (p : Pw)
+    (hm : ∀ e ∈ mid, ofLogin i e = false) :
+    (runEv c ⟨Tbl.empty, []⟩ (pre ++ .fetch i (.login u p) :: mid ++ [.finish i])).getLast? =
+        some (.out (.auth (.ok j))) ↔
+      c.loginEnabled = true ∧ j = u ∧
+      ∃ k s q, resolve c u = some k ∧ current c (mgmtOf pre).reverse k = some (s, q) ∧ pwEq s p q = true := by
+  rw [C14_overlap_verdict_at_fetch c pre mid i (.login u p) hm, ← C14_login_ok_iff]
+  simp [step]
+
+theorem C14_overlap_plain_iff_current_password (c : Cfg) (pre mid : List Ev) (i : Nat) (a u j : Name) (p : Pw)
+    (hm : ∀ e ∈ mid, ofLogin i e = false) :
+    (runEv c ⟨Tbl.empty, []⟩ (pre ++ .fetch i (.plain a u p) :: mid ++ [.finish i])).getLast? =
+        some (.out (.auth (.ok j))) ↔
+      (a = [] ∨ a = u) ∧ j = u ∧
+      ∃ k s q, resolve c u = some k ∧ current c (mgmtOf pre).reverse k = some (s, q) ∧ pwEq s p q = true := by
+  rw [C14_overlap_verdict_at_fetch c pre mid i (.plain a u p) hm, ← C14_plain_ok_iff]
+  simp [step]
+
+/-- A schedule without overlap is the sequential run: the driver prints `runEv`, the theorems above the line speak
+about `run` / `tableAfter`. -/
+theorem C14_runEv_atomic (c : Cfg) (t : Tbl) (pend : List (Nat × Out)) (ops : List Op) :
+    runEv c ⟨t, pend⟩ (ops.map .op) = (run c t ops).map .out := by
+  induction ops generalizing t with
+  | nil => simp [runEv, run]
+  | cons o r ih => simp [runEv, run, evStep, ih]
+
+/-- a login that overlaps nothing (`fetch` immediately followed by `finish`) is the atomic operation. -/
+theorem C14_fetch_finish_is_atomic (c : Cfg) (s : ConcState) (i : Nat) (o : Op) :
+    runEv c s [.fetch i o, .finish i] = [.begun, .out (step c s.tbl o).2] := by
+  simp [runEv, evStep, pendGet]
+
+
 /-! ## non-vacuity -/
 
 section Examples
@@ -687,6 +890,29 @@ example : isTxCmd .mail = true ∧ (connStep true (connAfter true [.ehlo, .auth 
 -- MAIL inside an open transaction (a recipient was accepted) is refused (fix 621600d)
 example : connRun true {} [.ehlo, .auth (.ok [1]), .ehlo, .mail, .auth (.ok [1]), .rcpt, .mail, .rset, .mail] =
     [250, 235, 250, 250, 503, 250, 503, 250, 250] := by decide
+
+-- auth_map_normalize auto: 'straße' [115,116,114,97,223,101] and 'strasse' are different accounts (ucm lower-cases, it
+-- does not case-fold); [9,9] plays the e-mail address.  Hypotheses of C14_auto_* are satisfiable and the verdicts differ.
+def exPrims : NormPrims :=
+  { ucm := fun u => some (u.map (fun ch => if ch = 83 then 115 else ch)),   -- 'S' ↦ 's', ß stays
+    ucp := some, emailFold := fun u => some (u ++ [64]), emailPres := some, lower := id,
+    validEmail := fun u => u == [9, 9] }
+def exAuto : Cfg := Cfg.ofConfig exPrims (some .auto) none true
+def exPairHist : List Op := [.create [115, 223] [1] (some .sha256), .create [115, 115, 115] [2] (some .sha256)]
+example : exPrims.validEmail [115, 223] = false ∧ (∀ k, exPrims.ucm [115, 223] = some k → exPrims.ucm k = some k) := by
+  decide
+example : login exAuto (tableAfter exAuto exPairHist) [115, 223] [1] = .ok [115, 223] ∧
+    login exAuto (tableAfter exAuto exPairHist) [115, 223] [2] = .fail ∧
+    login exAuto (tableAfter exAuto exPairHist) [83, 115, 115] [2] = .ok [83, 115, 115] := by decide
+example : ∀ op ∈ [Op.setPw [115, 115, 115] [3]], touches exAuto [115, 223] op = false := by decide
+-- overlapping logins: login 1 (old password) reads its row, the password is changed, login 2 (old password) and
+-- login 3 (new password) start, login 4 uses a wrong password throughout; they finish in another order.
+example : runEv exCfg ⟨Tbl.empty, []⟩
+    [.op (.create [2] [7] (some .sha256)), .fetch 1 (.login [1] [7]), .fetch 4 (.login [1] [5]), .op (.setPw [2] [8]),
+     .fetch 2 (.login [1] [7]), .fetch 3 (.plain [] [1] [8]), .yield, .finish 3, .finish 4, .finish 2, .finish 1, .finish 1] =
+    [.out (.mgmt .ok), .begun, .begun, .out (.mgmt .ok), .begun, .begun, .begun,
+     .out (.auth (.ok [1])), .out (.auth .fail), .out (.auth .fail), .out (.auth (.ok [1])), .noLogin] := by decide
+example : ∀ e ∈ [Ev.fetch 4 (.login [1] [5]), .op (.setPw [2] [8]), .finish 4], ofLogin 1 e = false := by decide
 
 end Examples
 
